@@ -1,15 +1,18 @@
 from props.common import *
+from props.boundedrun import script
 ID = "C19"
 LEVEL = "other"
 TAGS = ("C19",)
 CONTRACT_MODULES = ALL_CONTRACTS
 FUNCTIONS = [H + "_handle_" + c for c in ("G0", "G1", "G2", "G3", "G28", "G92", "G10")] + [H + "handleGcode"]
 ASSUMPTIONS = ["A1", "A2", "A4"]
-EXPLANATION = ("Handler half (deductive): loop invariants over an item sequence of arbitrary symbolic length prove that G0/G1/G2/G3/G92 "
-               "act on the LAST value given for each letter (recursive spec function last(items, k, L)), that valueless words are "
-               "ignored by them, and that G28/G10 react to the presence of a letter. Parser half (parameterItems vs. an independent "
-               "RS274 reader) depends on the regex engine's backtracking and is a BOUNDED check -- see coverage.bounded; it is not "
-               "counted as proved.")
+BOUNDED = [script("param_items.py")]
+EXPLANATION = ("Handler half (deductive, for item sequences of ANY length): loop invariants prove that G0/G1/G2/G3/G92 act on the LAST "
+               "value given for each letter (recursive spec function last(items, k, L)), ignore valueless words, and that G28/G10 react "
+               "to the presence of a letter. Parser half (parameterItems vs. an independent RS274 reader) depends on the regex engine's "
+               "backtracking/priorities, which a contract on the pattern cannot express: it is a BOUNDED exhaustive comparison on word "
+               "sequences of bounded length (coverage.bounded), labelled bounded and not counted under obligations/discharged.")
+TECHNIQUE = "contracts + loop invariants over symbolic item sequences (z3) for the handlers; bounded exhaustive comparison with an RS274 reader for the tokeniser"
 BREAKERS = [
     {"module": "GcodeHandlers", "old": "                elif (label == \"X\"):\n                    x = value\n                elif (label == \"Y\"):\n                    y = value\n                elif (label == \"Z\"):\n                    z = value\n\n        return self.state.processLinearMoves",
      "new": "                elif (label == \"X\" and x is None):\n                    x = value\n                elif (label == \"Y\"):\n                    y = value\n                elif (label == \"Z\"):\n                    z = value\n\n        return self.state.processLinearMoves",
